@@ -147,7 +147,8 @@ pub fn run(args: &Args) {
     }
     let mut rng = Rng::new(args.seed, "c15", args.shard);
     let n_grammars = args.budget(12_000, 2_000_000);
-    let cfg = GenCfg::new(Profile::Full);
+    let mut cfg = GenCfg::new(Profile::Full);
+    cfg.big_choices_pct = 12;
     for gi in 0..n_grammars {
         if rep.elapsed() > args.max_s {
             rep.notes.insert("stopped_early_at_grammar".into(), json!(gi));
